@@ -70,6 +70,7 @@ type Step struct {
 	NoTopic bool  `json:"notopic"` // send alias only
 	Pad    int    `json:"pad"`     // payload padded with '.' up to this many bytes (tag first)
 	NoRel  bool   `json:"norel"`   // QoS2: do not send PUBREL after PUBREC
+	Fq     int    `json:"fq"`      // QoS at which the one size-limited subscriber of the scenario would get it (for fsize)
 	// ack (manual)
 	T    string `json:"t"` // "puback" | "pubrec" | "pubcomp" | "pubrel" | "auto"
 	Sel  int    `json:"sel"` // with t = "auto": acknowledge the (sel mod n)-th oldest unacknowledged delivery
@@ -674,7 +675,8 @@ func (r *Run) publish(s *Step) {
 	}
 	p.Version = a.ver
 	m := a.mark()
-	r.Rec.Log(inproc.Event{"e": "publish", "k": s.K, "pid": int(pid), "qos": s.Qos, "retain": s.Retain, "dup": s.Dup, "topic": s.Topic,
+	fsz := fwdSize(s.Topic, s.Fq, pl)
+	r.Rec.Log(inproc.Event{"e": "publish", "fsize": fsz, "k": s.K, "pid": int(pid), "qos": s.Qos, "retain": s.Retain, "dup": s.Dup, "topic": s.Topic,
 		"lv": lv(s.Topic), "sys": isSys(s.Topic), "tag": s.Tag, "empty": len(pl) == 0, "msgexp": s.MsgExp, "alias": s.Alias,
 		"notopic": s.NoTopic, "size": mw.Size(p)})
 	if err := a.c.Send(p); err != nil {
@@ -705,8 +707,21 @@ func (r *Run) pubrel(a *actor, pid uint16) {
 	a.wait(m, r.TO.Ack, func(p *mw.Packet) bool { return p.Type == mw.PUBCOMP && p.PacketID == pid })
 }
 
+// fwdSize is the size of the PUBLISH a v5 subscriber would be sent for this message at QoS fq, without
+// subscription identifiers, topic alias or other properties (computed with the independent codec).
+func fwdSize(topic string, fq int, payload []byte) int {
+	var pid uint16
+	if fq > 0 {
+		pid = 1
+	}
+	p := mw.Publish(topic, byte(fq), false, pid, payload)
+	p.Version = mw.V5
+	p.Props = &mw.Props{}
+	return mw.Size(p)
+}
+
 func (r *Run) apipublish(topic string, qos int, retain bool, tag string, msgexp int64) {
-	r.Rec.Log(inproc.Event{"e": "apipublish", "k": 0, "pid": 0, "qos": qos, "retain": retain, "dup": false, "topic": topic, "lv": lv(topic),
+	r.Rec.Log(inproc.Event{"e": "apipublish", "alias": 0, "notopic": false, "size": 0, "fsize": fwdSize(topic, qos, []byte(tag)), "k": 0, "pid": 0, "qos": qos, "retain": retain, "dup": false, "topic": topic, "lv": lv(topic),
 		"sys": isSys(topic), "tag": tag, "empty": len(tag) == 0, "msgexp": msgexp})
 	r.B.Srv.Publisher().Publish(&gmqtt.Message{Topic: topic, QoS: uint8(qos), Retained: retain, Payload: []byte(tag), MessageExpiry: uint32(msgexp)})
 }
@@ -753,7 +768,13 @@ func (r *Run) ping(s *Step) {
 		return
 	}
 	m := a.mark()
+	a.logmu.Lock()
+	if a.muted { // the connection is over (the broker closed it, or we did): nothing to flush
+		a.logmu.Unlock()
+		return
+	}
 	r.Rec.Log(inproc.Event{"e": "pingreq", "k": s.K})
+	a.logmu.Unlock()
 	if err := a.c.Send(mw.Pingreq()); err != nil {
 		return
 	}
